@@ -2,12 +2,22 @@
 
 Same scenarios as C09/C10 (TLC-generated + random multi-connection), with `new`/`complete` callbacks and the
 read-only hook scalars (pages in use, live connections, queued pages, head-of-queue timestamp) logged after every
-API call; TLC validates the lifecycle clauses of Reasm.tla."""
+API call; TLC validates the lifecycle clauses of Reasm.tla.  Plus the scripted scenarios escalated from the
+implementation-shaped models (ReasmImpl.tla: HalfPagesExact -> per-connection page limit with KeepFrom), and in the
+thorough tier the behaviours of both implementation-shaped models replayed on the real assemblers (lifecycle reasons)."""
 import time, shutil
 import vlib
 from . import asmcommon as ac
+from . import reasmimpl as ri
+from . import tcpasmimpl as ti
 
 PID = "C11"
+
+
+class _QuickPlans:
+    """the Impl-layer pipelines are run with their quick plans inside C11 (their thorough plans belong to C09 / C10)"""
+    def __init__(self, ctx):
+        self.tier, self.seed, self.pid = "quick", ctx.seed, ctx.pid
 
 
 def run(ctx):
@@ -17,7 +27,17 @@ def run(ctx):
     stats, bad = ac.run_asm(ctx, ["reasm", "tcpasm"], wd, 300 if ctx.tier == "quick" else 5000,
                             variants={"reasm": 1, "tcpasm": 1} if ctx.tier == "quick" else None)
     ac.judge(V, bad, ac.LIFECYCLE, ["reasm", "tcpasm"])
+    extra = {"escalated_scenarios": ri.run_escalations(V)}
+    if ctx.tier != "quick":
+        own = lambda reason: V if reason in ac.LIFECYCLE else None
+        for name, mod in (("reassembly", ri), ("tcpassembly", ti)):
+            cov = mod.run_impl(_QuickPlans(ctx), own, with_self_test=False)
+            extra["impl_model_" + name] = {k: cov[k] for k in ("model", "states", "traces_validated_against_impl", "trace_events_validated",
+                                                                "events_compared_model_vs_code", "rejected_real_scenarios", "impl_drift")}
+            stats["tstates"] += cov["states"]
+            stats["scenarios"] += cov["traces_validated_against_impl"]
+            stats["events"] += cov["trace_events_validated"]
     rc = V.finish()
-    ac.evidence(PID, ctx, V, stats, t0, ["reassembly", "tcpassembly"], "Lifecycle clauses are evaluated on every api/new/complete/flush event.")
+    ac.evidence(PID, ctx, V, stats, t0, ["reassembly", "tcpassembly"], "Lifecycle clauses are evaluated on every api/new/complete/flush event.", extra)
     shutil.rmtree(wd, ignore_errors=True)
     return rc
